@@ -23,6 +23,17 @@ def now():
     return main.current_tt._seconds
 
 
+def num(x):
+    """'i:2' int, 'z:0' float -0.0, otherwise the float of a Fraction string: explicit zeros of every kind"""
+    if x.startswith('i:'): return int(x[2:])
+    if x.startswith('z:'): return -0.0
+    return float(Fr(x))
+
+
+class Boom(BaseException):        # not an Exception: ClockTask._wakeup does not catch it
+    pass
+
+
 def run_clock(sc):
     main.reset()
     clocks = {-1: SystemClock}
@@ -36,15 +47,15 @@ def run_clock(sc):
 
     def act(a):
         if a[0] == 'sched':
-            clocks[specs[a[1]]['clock']].sched(float(Fr(a[2])), objs[a[1]])
+            clocks[specs[a[1]]['clock']].sched(num(a[2]), objs[a[1]])
         elif a[0] == 'abs':
             c = clocks[specs[a[1]]['clock']]
-            c.sched_abs(math.floor(beats_of(c)) + float(Fr(a[2])), objs[a[1]])
+            c.sched_abs(math.floor(beats_of(c)) + num(a[2]), objs[a[1]])
         elif a[0] == 'tempo':
-            clocks[a[1]].tempo = float(Fr(a[2]))
+            clocks[a[1]].tempo = num(a[2])
         elif a[0] == 'beats':
             c = clocks[a[1]]
-            c.beats = c.beats - float(Fr(a[2]))
+            c.beats = c.beats - num(a[2])
 
     def make(j, spec):
         steps = spec['steps']
@@ -54,7 +65,11 @@ def run_clock(sc):
             for a in steps[k]['acts']:
                 act(a)
             r = steps[k]['ret']
-            return None if r is None else float(Fr(r))
+            if r == 'raise':
+                raise RuntimeError('task %d' % j)
+            if r == 'raiseB':
+                raise Boom('task %d' % j)
+            return None if r is None else num(r)
         if spec['type'] == 'R':
             def body():
                 for k in range(len(steps)):
@@ -79,7 +94,12 @@ def run_clock(sc):
         act(a)
     if sc.get('abort'):                       # leave the scheduler dirty; the next scenario resets
         return {'log': [], 'left': 0}
-    main.process()
+    for _ in range(200):                      # a BaseException leaves run(); the rest must still be there
+        try:
+            main.process()
+            break
+        except Boom:
+            pass
     R = type(main._clock_scheduler.queue)._REMOVED
     left = sum(1 for e in main._clock_scheduler.queue._queue if e[2] is not R)
     return {'log': log, 'left': left}
@@ -108,8 +128,11 @@ def run_score(sc):
     addr = NetAddr('127.0.0.1', 57110)
     specs = sc['tasks']
 
+    msgs = {}                                 # the SAME message object is sent again when an id repeats
+
     def bundle(a):
-        addr.send_bundle(None if a[1] is None else float(Fr(a[1])), ['/n_set', 1, 'k', a[2]])
+        m = msgs.setdefault(a[2], ['/n_set', 1, 'k', a[2]])
+        addr.send_bundle(None if a[1] is None else num(a[1]), m)
 
     def make(spec):
         def body():
@@ -118,16 +141,17 @@ def run_score(sc):
                     bundle(a)
                 if st['ret'] is None:
                     return
-                yield float(Fr(st['ret']))
+                yield num(st['ret'])
         return Routine(body)
     objs = [make(s) for s in specs]
     for a in sc['init']:
         if a[0] == 'play':
-            SystemClock.sched(float(Fr(a[2])), objs[a[1]])
+            SystemClock.sched(num(a[2]), objs[a[1]])
         else:
             bundle(a)
-    score = main.process(float(Fr(sc['tail'])))
-    return {'list': [[str(Fr(b[0])), mark(b)] for b in score.list], 'raw': raw_entries(score.raw)}
+    score = main.process(num(sc['tail']))
+    return {'list': [[str(Fr(b[0])), mark(b)] for b in score.list], 'raw': raw_entries(score.raw),
+            'mutated': [i for i, m in msgs.items() if m != ['/n_set', 1, 'k', i]]}
 
 
 def run_ppar(sc):
@@ -135,7 +159,7 @@ def run_ppar(sc):
     from sc3.seq.patterns.eventpatterns import Pbind, Ppar
     from sc3.seq.patterns.listpatterns import Pseq
     main.reset()
-    pats = [Pbind({'sid': i, 'k': Pseq(list(range(len(d)))), 'dur': Pseq([float(Fr(x)) for x in d])})
+    pats = [Pbind({'sid': i, 'k': Pseq(list(range(len(d)))), 'dur': Pseq([num(x) for x in d])})
             for i, d in enumerate(sc['streams'])]
     s = stm.stream(Ppar(*pats))
     t, out = Fr(0), []
